@@ -2,6 +2,7 @@
 import KB.Driver.Util
 import KB.MemTTL
 import KB.EngineTxn
+import KB.CompactFault
 namespace KB.Driver
 open KB
 
@@ -24,6 +25,8 @@ structure SuiteState where
   tstorm : Nat × List BOp := (0, [])
   /-- the next range read / count / stream meets a transient engine error on its read of the compaction record -/
   getFault : Bool := false
+  /-- `getfault skip=<n>`: the n point reads before the failing one are served -/
+  getFaultSkip : Nat := 0
   /-- revisions delivered so far on the (single) native watch stream of the script -/
   bseen : List Nat := []
   /-- a partition's iterator fails persistently: range reads / counts answer with an error until cleared -/
@@ -366,7 +369,7 @@ def stepBackend (st : SuiteState) (toks : List String) : SuiteState × String :=
   | ["get", k, r] =>
     let (hdr, kv) := doGet c st.b (unhx k) (relRev st.b.committed r)
     (st, s!"get {hdr} {okvStr kv}")
-  | ["getfault"] => ({ st with getFault := true }, "getfault ok")
+  | ["getfault"] => ({ st with getFault := true, getFaultSkip := atou ((opts.lookup "skip").getD "0") }, "getfault ok")
   -- a slow engine call changes no answer: `getdelay <ms>` (the next point Get), `iterslow <ms> from=<hex>` (every Next of the
   -- iterators of one partition)
   | ["getdelay", _] => (st, "getdelay ok")
@@ -389,6 +392,21 @@ def stepBackend (st : SuiteState) (toks : List String) : SuiteState × String :=
     | .error e => (st, s!"count err {errStr e}")
     | .panic => (st, "count PANIC")
   | ["compact", r] =>
+    -- a compaction reads the compaction record once in setCompactRecord and once per border pair in the scanner
+    let npairs := (pairs (compactBorders c)).length
+    if st.getFault && st.getFaultSkip == 0 then
+      -- setCompactRecord's own read fails: the request ends with that error before anything is written
+      ({ st with getFault := false }, "compact err other")
+    else if st.getFault && st.getFaultSkip ≤ npairs then
+      -- the scanner's read fails in border pair skip-1 (KB.CompactFault)
+      let (res, b) := doCompactRF c st.b (atou r) (parseMask opts) (st.getFaultSkip - 1)
+      let st := { st with getFault := false, getFaultSkip := 0, dellog := [] }
+      match res with
+      | .ok hdr => ({ st with b := b }, s!"compact {hdr}")
+      | .error e => ({ st with b := b }, s!"compact err {errStr e}")
+      | .panic => ({ st with b := b }, "compact PANIC")
+    else
+    let st := if st.getFault then { st with getFaultSkip := st.getFaultSkip - (npairs + 1) } else st
     let (res, b) := doCompact c st.b (atou r) (parseMask opts)
     let st := { st with dellog := compactTrace c st.b (atou r) (parseMask opts) }
     match res with
